@@ -32,7 +32,7 @@ SWEEPS = [
     ("C04", "c04", ["FASTOR_USE_VECTORISED_EXPR_ASSIGN"], None, 0.08, 0.5),
     ("C19", "c19", ["FASTOR_USE_VECTORISED_EXPR_ASSIGN"], None, 0.08, 0.5),
     ("C20", "c20", ["FASTOR_ZERO_INITIALISE", "FASTOR_DISABLE_SPECIALISED_CTR"], None, 0.1, 0.5),
-    ("C02", "c02", ["FASTOR_DISPATCH_DIV_TO_MUL_EXPR"], None, 0.05, 0.3),
+    ("C02", "c02", ["FASTOR_DISPATCH_DIV_TO_MUL_EXPR"], lambda c: '"div"' in json.dumps(c) or c.get("aop") == "div", 0.5, 1.0),
 ]
 SWEEP_BASE = "avx2-14-O2"
 
